@@ -122,6 +122,9 @@ func (ex *Exec) VerifyFunc(fn *ssa.Function, fc *contract.Func, cs *contract.Cas
 		}
 	}()
 	st := ex.NewState()
+	for k, v := range ex.InitGhost {
+		st.Ghost[k] = v
+	}
 	args := ex.EntryArgs(st, fn, fc, cs)
 	pre := ex.scopeFor(fn, st, nil, args, nil)
 	var reqs, enss []contract.Clause
